@@ -350,6 +350,7 @@ func (w *brWorld) relayerOp() {
 			regHash = vr.VoteKey
 		}
 		blsKey, blsSigner := v, v
+		docHash := regHash
 		docEpoch, docChain, docProp, docHeight := rel.Epoch, ChainID, prop, height
 		txSigner := v
 		variant := "honest"
@@ -359,6 +360,11 @@ func (w *brWorld) relayerOp() {
 			variant = "other-bls-key"
 			blsKey = w.voters[(v.Idx+1)%len(w.voters)]
 			blsSigner = blsKey
+			if r.Bool() {
+				// both proofs made over the hash of the submitted key: self-consistent, but not the registered key
+				variant = "other-bls-key-self-consistent"
+				docHash = blsKey.BlsHash
+			}
 		case y < 72:
 			variant = "bls-proof-by-other"
 			blsSigner = w.voters[(v.Idx+1)%len(w.voters)]
@@ -378,7 +384,7 @@ func (w *brWorld) relayerOp() {
 			variant = "wrong-proposer-in-doc"
 			docProp = w.voters[(v.Idx+3)%len(w.voters)].AddrStr
 		}
-		doc := signDoc("Relayer/NewVoter", docChain, docProp, 0, docEpoch, append(append(le64b(docHeight), v.Addr...), regHash...))
+		doc := signDoc("Relayer/NewVoter", docChain, docProp, 0, docEpoch, append(append(le64b(docHeight), v.Addr...), docHash...))
 		txProof := ecdsaProof(txSigner, doc)
 		blsProof := blsSign(blsSigner, doc)
 		lengthsOK := true
@@ -412,6 +418,13 @@ func (w *brWorld) relayerOp() {
 		ep := rel.Epoch
 		if r.Chance(10) {
 			ep++
+		} else if ep > 0 && r.Chance(25) {
+			// an acceptance made for an earlier term of the same proposer, delivered now
+			ep = uint64(r.Intn(int(ep)))
+			if r.Bool() {
+				ep = rel.Epoch - 1
+			}
+			w.st.Count("accept:stale-epoch")
 		}
 		msg := &relayertypes.MsgAcceptProposerRequest{Proposer: prop, Epoch: ep}
 		cls, _ := w.e.Tx(func(c sdk.Context) error { _, err := w.msgSrvR().AcceptProposer(c, msg); return err })
